@@ -89,9 +89,14 @@ func errKind(err error) string {
 	return "other"
 }
 
-func hintsFor(tryHarder bool) map[gozxing.DecodeHintType]interface{} {
+// flagValues: TRY_HARDER is documented as "Doesn't matter what it maps to": a caller may use the
+// hint map as a set. The value given rotates with the image size over true, untyped nil, struct{}{}
+// and 1, so that every value is used on every symbology and pose class.
+var flagValues = []interface{}{true, nil, struct{}{}, 1}
+
+func hintsFor(tryHarder bool, variant int) map[gozxing.DecodeHintType]interface{} {
 	if tryHarder {
-		return map[gozxing.DecodeHintType]interface{}{gozxing.DecodeHintType_TRY_HARDER: true}
+		return map[gozxing.DecodeHintType]interface{}{gozxing.DecodeHintType_TRY_HARDER: flagValues[variant%len(flagValues)]}
 	}
 	return nil
 }
@@ -102,7 +107,7 @@ func readImage(l *mc.Local, s spec, g *grid, tryHarder bool, extra map[gozxing.D
 	o.orient = -1
 	var res *gozxing.Result
 	var err error
-	hints := hintsFor(tryHarder)
+	hints := hintsFor(tryHarder, g.w+g.h)
 	if extra != nil {
 		if hints == nil {
 			hints = map[gozxing.DecodeHintType]interface{}{}
